@@ -31,6 +31,11 @@ def one(mid):
                 det.append(p)
     finally:
         subprocess.run(["git", "-C", "/repo", "worktree", "remove", "--force", wt], capture_output=True)
+        # the private harness copy and its build output of this worktree
+        import hashlib, shutil
+        tag = hashlib.sha1(wt.encode()).hexdigest()[:10]
+        for dname in ("harness_alt_" + tag, "target_alt_" + tag, "target_alt_" + tag + "_f32"):
+            shutil.rmtree(os.path.join(ROOT, ".cache", dname), ignore_errors=True)
     meta = json.load(open(os.path.join(d, "meta.json")))
     meta["detected_by"] = det
     meta["detected_by_own_property_check"] = meta["breaks_property"] in det
